@@ -1,19 +1,21 @@
 #!/bin/sh
-# usage: tools/confirm_seed.sh <Cxx> <A|B>
-# Confirms a seeded change in its scratch worktree /tmp/mut/<Cxx>: (1) the repository's tests pass with it,
-# (2) its demonstration fails with it, (3) the demonstration passes without it. Prints one summary line.
-ID=$1; V=$2; W=/tmp/mut/$ID; S=$W/_seed/$V
+# usage: tools/confirm_seed.sh <Cxx-A|Cxx-B>      (a directory under /verif/seeded)
+# Confirms a seeded change in a scratch worktree of /repo (created under /tmp, removed afterwards):
+# (1) the repository's tests pass with it, (2) its demonstration fails with it, (3) the demonstration passes without it.
+N=$1; S=/verif/seeded/$N; W=/tmp/confirm_$N
+[ -f $S/patch.diff ] || { echo "no such seed $N"; exit 2; }
+git -C /repo worktree add --detach $W HEAD -q || exit 2
+cp /repo/Cargo.lock $W/ 2>/dev/null
+trap 'git -C /repo worktree remove --force $W >/dev/null 2>&1' EXIT INT TERM
 cd $W || exit 2
-git checkout -q -- src Cargo.toml 2>/dev/null; rm -f tests/demo_seed.rs
 FEAT=""; grep -q "verif-hooks\|verif_hooks" $S/demo.rs && FEAT="--features verif-hooks"
-git apply $S/patch.diff || { echo "$ID-$V: PATCH DOES NOT APPLY"; exit 1; }
-t=$(cargo test --workspace --no-fail-fast --offline 2>&1); 
+git apply $S/patch.diff || { echo "$N: PATCH DOES NOT APPLY"; exit 1; }
+t=$(cargo test --workspace --no-fail-fast --offline 2>&1)
 if echo "$t" | grep -q "test result: FAILED\|^error"; then T="tests FAIL with change"; else T="tests pass with change ($(echo "$t" | grep -E '^test result: ok. [1-9]' | head -1 | cut -d. -f2 | cut -d';' -f1))"; fi
 cp $S/demo.rs tests/demo_seed.rs
-d=$(timeout 900 cargo test --offline --release $FEAT --test demo_seed 2>&1); 
-if echo "$d" | grep -q "test result: FAILED\|panicked"; then D1="demo FAILS with change"; elif echo "$d" | grep -q "^error"; then D1="demo does not compile ($(echo "$d" | grep -m1 '^error' | cut -c1-80))"; else D1="demo passes with change (!)"; fi
+d=$(timeout 900 cargo test --offline --release $FEAT --test demo_seed 2>&1)
+if echo "$d" | grep -q "test result: FAILED\|panicked"; then D1="demo FAILS with change"; elif echo "$d" | grep -q "^error"; then D1="demo does not compile"; else D1="demo passes with change (!)"; fi
 git checkout -q -- src
-d2=$(timeout 900 cargo test --offline --release $FEAT --test demo_seed 2>&1);
+d2=$(timeout 900 cargo test --offline --release $FEAT --test demo_seed 2>&1)
 if echo "$d2" | grep -q "test result: FAILED\|panicked"; then D2="demo FAILS without change (!)"; elif echo "$d2" | grep -q "^error"; then D2="demo does not compile"; else D2="demo passes without change"; fi
-rm -f tests/demo_seed.rs
-echo "$ID-$V: $T; $D1; $D2"
+echo "$N: $T; $D1; $D2"
